@@ -30,7 +30,7 @@ PROPS = {
         K('soft_cap_range', 'C03.kani.soft_cap_factor_in_01_1'),
     ]),
     'C04': dict(units=['core_all', 'route', 'reg', 'events'], level='proof'),
-    'C11': dict(units=['core_all', 'conns'], level='proof', kani=[
+    'C11': dict(units=['core_all', 'conns', 'route'], level='proof', kani=[
         K('quality_multiplier_range', 'C11.kani.quality_multiplier_in_035_to_11x103'),
         K('soft_cap_range', 'C11.kani.soft_cap_factor_in_01_1'),
         K('in_flight_cap_at_least_one', 'C11.kani.in_flight_cap_at_least_one_packet_and_none_iff_no_target'),
